@@ -177,13 +177,24 @@ func listedAreRelayed(listed [][]byte, baseline []handler.Message) string {
 	return fmt.Sprintf("the report lists %d messages that are not a contiguous run of the %d messages relayed so far (first listed: %s)", len(listed), len(baseline), clip(hexs(listed[0])))
 }
 
-func freePort() int {
-	l, err := net.Listen("tcp", "127.0.0.1:0")
+// twoFreePorts binds both ports before releasing either, so the two are never the
+// same port.  (Released one after the other, the kernel handed out the same number
+// twice about once in 14 000 starts: the proxy then serves its client port there, the
+// status server cannot bind, and the harness's own status requests are relayed
+// upstream as if they were client traffic - a false alarm of C19 seen once in a
+// thorough run, DESIGN section 8.)
+func twoFreePorts() (int, int) {
+	l1, err := net.Listen("tcp", "127.0.0.1:0")
 	if err != nil {
-		return 0
+		return 0, 0
 	}
-	defer l.Close()
-	return l.Addr().(*net.TCPAddr).Port
+	defer l1.Close()
+	l2, err := net.Listen("tcp", "127.0.0.1:0")
+	if err != nil {
+		return 0, 0
+	}
+	defer l2.Close()
+	return l1.Addr().(*net.TCPAddr).Port, l2.Addr().(*net.TCPAddr).Port
 }
 
 type proxyProc struct {
@@ -243,7 +254,7 @@ func startProxyOnce(c *child.Ctx, id int, smallWindow bool) (*proxyProc, error) 
 		return nil, err
 	}
 	p.upstream = up
-	p.proxyPort, p.ctlPort = freePort(), freePort()
+	p.proxyPort, p.ctlPort = twoFreePorts()
 	// record_messages stays true: with it false the proxy of the pinned commit does not
 	// start at all (nil message log dereferenced in main) - a configuration matter
 	// outside C19, which quantifies over traffic and schedules (DESIGN section 10)
@@ -282,16 +293,24 @@ func startProxyOnce(c *child.Ctx, id int, smallWindow bool) (*proxyProc, error) 
 			}
 			uc.Close()
 			// the control port must answer too, and our process must have survived binding both
-			for j := 0; j < 100; j++ {
+			answered := false
+			ctlStart := time.Now()
+			for j := 0; j < 100 && time.Since(ctlStart) < 40*time.Second; j++ {
 				cl := http.Client{Timeout: 5 * time.Second}
 				if resp, err := cl.Get(fmt.Sprintf("http://127.0.0.1:%d/status/report", p.ctlPort)); err == nil {
 					resp.Body.Close()
+					answered = true
 					break
 				}
 				if !p.alive() {
 					break
 				}
 				time.Sleep(20 * time.Millisecond)
+			}
+			if !answered && p.alive() {
+				// start-up only: no verdict depends on this clock.  A status server that
+				// never answers means the port went to someone else: discard the attempt.
+				return p, fmt.Errorf("what answers on control port %d is not ours (no status report)", p.ctlPort)
 			}
 			time.Sleep(30 * time.Millisecond)
 			if !p.alive() {
